@@ -108,6 +108,11 @@ func (ls *LinesearchMethod) Iterate(loc *Location) (Operation, error) {
 		}
 
 	case FuncEvaluation, GradEvaluation, FuncEvaluation | GradEvaluation:
+		if math.IsNaN(step) {
+			// The Linesearcher has broken down, for example after
+			// a non-finite function value.
+			return ls.error(ErrLinesearcherFailure)
+		}
 		if step != ls.lastStep {
 			// We are moving to a new location, and not, say, evaluating extra
 			// information at the current location.
@@ -152,7 +157,8 @@ func (ls *LinesearchMethod) initNextLinesearch(loc *Location) (Operation, error)
 	}
 
 	projGrad := floats.Dot(loc.Gradient, ls.dir)
-	if projGrad >= 0 {
+	if !(projGrad < 0) {
+		// Not a descent direction, or a direction with NaN elements.
 		return ls.error(ErrNonDescentDirection)
 	}
 
